@@ -82,7 +82,6 @@ class History:
         from valjean.cosette.task import Task, TaskStatus
         from valjean.cosette.depgraph import DepGraph
         from valjean.cambronne.common import read_env, write_env
-        from valjean.cambronne.commands.run import schedule
         self.run += 1
         hist = self
         runno = self.run
@@ -141,7 +140,10 @@ class History:
         result = {}
 
         def master():
-            result['env'] = schedule(hard_graph=hard, soft_graph=soft, env=env, workers=self.workers)
+            # what `valjean run` does (cambronne.commands.run.schedule), spelled out so that no private helper is needed
+            _env_mod, q_mod = schedrun.load()
+            result['env'] = Scheduler(hard_graph=hard, soft_graph=soft,
+                                      backend=q_mod.QueueScheduling(self.workers)).schedule(env=env, config=None)
         main = ctl.run(master)
         self.clock = ctl.clock
         execs = []
